@@ -184,6 +184,11 @@ func receiveFromTransport(ctx context.Context, c *channel, done chan<- struct{})
 		if err != nil {
 			if ctx.Err() == nil {
 				log.Printf("receiveFromTransport: %v", err)
+				// The channel cannot receive anymore (connection lost, undecodable or oversized input).
+				// Release the transport, otherwise the channel would still look established while it is deaf.
+				if c.transport.Connected() {
+					_ = c.transport.Close()
+				}
 			}
 			return
 		}
